@@ -508,16 +508,26 @@ def r6(rr, repo):
     fall = [n for n in loop[0].body if isinstance(n, ast.If) and 'isidentifier()' in U(n.test) and 'iskeyword(' in U(n.test)]
     own = sorted({e.elts[0].value for e in ast.walk(mk) if isinstance(e, ast.Tuple) and len(e.elts) == 3 and q.const_str(e.elts[0]) is not None})
     fb_ok = False
+    inverted = False
     if fall:
         t = fall[0].test
         parts = [U(v) for v in t.values] if isinstance(t, ast.BoolOp) and isinstance(t.op, ast.Or) else [U(t)]
-        names_covered = all(nm.lstrip('_') != nm or any(repr(nm) in p_ or f'"{nm}"' in p_ for p_ in parts) for nm in own)     # names with a leading '_' cannot collide: the normaliser strips leading underscores
+        vals = t.values if isinstance(t, ast.BoolOp) and isinstance(t.op, ast.Or) else [t]
+        listed = set()
+        for v in vals:      # `k in (<names>)` / `k == <name>`: a membership test in the positive sense, not `k not in (..)`
+            if isinstance(v, ast.Compare) and len(v.ops) == 1 and U(v.left) == k:
+                if isinstance(v.ops[0], ast.In) and isinstance(v.comparators[0], (ast.Tuple, ast.List, ast.Set)):
+                    listed |= {e.value for e in v.comparators[0].elts if isinstance(e, ast.Constant)}
+                elif isinstance(v.ops[0], ast.Eq) and isinstance(v.comparators[0], ast.Constant):
+                    listed.add(v.comparators[0].value)
+        names_covered = all(nm.lstrip('_') != nm or nm in listed for nm in own)     # names with a leading '_' cannot collide: the normaliser strips leading underscores
+        inverted = any(isinstance(v, ast.Compare) and len(v.ops) == 1 and U(v.left) == k and isinstance(v.ops[0], (ast.NotIn, ast.NotEq)) for v in vals)      # re-spells everything BUT the names that clash
         pre = [n for n in fall[0].body if isinstance(n, ast.Assign) and U(n.targets[0]) == k and isinstance(n.value, ast.JoinedStr) and n.value.values and isinstance(n.value.values[0], ast.Constant)
                and str(n.value.values[0].value)[:1].isalpha() and str(n.value.values[0].value).isidentifier()]
         fb_ok = f'not {k}.isidentifier()' in parts and f'iskeyword({k})' in parts and names_covered and bool(pre) and fall[0] is [n for n in loop[0].body if isinstance(n, (ast.If, ast.Assign)) and n.lineno < max(x.lineno for x in loop[0].body)][-1]
     tests_key = [n for n in loop[0].body if isinstance(n, ast.If) and any(isinstance(x, ast.Name) and x.id == k for x in ast.walk(n.test)) and any(isinstance(a, ast.Assign) and U(a.targets[0]) == k for a in ast.walk(n))]
     only_case = all('isupper()' in U(n.test) or 'islower()' in U(n.test) for n in tests_key)      # the only conditional re-spelling concerns letter case: keywords, digits, clashes pass
-    judge("what is still not a usable field name (empty, leading digit, a keyword, a name the facet defines itself) is re-spelled with an identifier prefix, as the last step before the key is stored", fb_ok, not fall and only_case,
+    judge("what is still not a usable field name (empty, leading digit, a keyword, a name the facet defines itself) is re-spelled with an identifier prefix, as the last step before the key is stored", fb_ok, (not fall and only_case) or (bool(fall) and inverted),
           fall[0] if fall else loop[0], (U(fall[0].test)[:140] if fall else 'no isidentifier()/iskeyword() fallback') + f'; facet-defined names: {own}', 'normalise-fallback')
 
 
